@@ -203,6 +203,15 @@ impl Rig {
         res
     }
 
+    /// the broker was changed by somebody else than `op` (a coordinator's failure handler): same bookkeeping
+    pub async fn after_external_change(&mut self, what: &str, args: Value) {
+        let snap = self.w.broker.raw_store().await;
+        self.w.broker.snapshots.push(snap);
+        self.w.refresh_broker_handle();
+        self.w.ensure_proxies().await;
+        self.emit(json!({"kind": "op", "op": what, "args": args, "res": "OK"}));
+    }
+
     pub async fn settle(&self) {
         // let background tasks (migration handshakes with 10ms polls, scans) make progress
         for _ in 0..30 {
